@@ -671,13 +671,19 @@ class DestHandler:
                 lost_segments.append((0, 0))
             if len(fd_pdu.file_data) > 0:
                 lost_segments.append((0, self._params.fp.progress))
-            if len(lost_segments) > 0:
+            max_segments_in_one_pdu = max(
+                1,
+                get_max_seg_reqs_for_max_packet_size_and_pdu_cfg(
+                    self._params.remote_cfg.max_packet_len, self._params.pdu_conf
+                ),
+            )
+            for idx in range(0, len(lost_segments), max_segments_in_one_pdu):
                 self._add_packet_to_be_sent(
                     NakPdu(
                         self._params.pdu_conf,
                         start_of_scope=0,
                         end_of_scope=self._params.fp.progress,
-                        segment_requests=lost_segments,
+                        segment_requests=lost_segments[idx : idx + max_segments_in_one_pdu],
                     )
                 )
 
@@ -963,8 +969,7 @@ class DestHandler:
             start,
             end,
         ) in self._params.acked_params.lost_seg_tracker.lost_segments.items():
-            next_segment_reqs.append((start, end))
-            if len(next_segment_reqs) == max_segments_in_one_pdu:
+            if len(next_segment_reqs) >= max_segments_in_one_pdu:
                 self._add_packet_to_be_sent(
                     NakPdu(
                         self._params.pdu_conf,
@@ -974,6 +979,7 @@ class DestHandler:
                     )
                 )
                 next_segment_reqs = []
+            next_segment_reqs.append((start, end))
         if len(next_segment_reqs) > 0:
             self._add_packet_to_be_sent(
                 NakPdu(
